@@ -173,7 +173,7 @@ def trip (f : Fmt) (root : Node) : String :=
   let ds := root.kids
   let evs := emitRL f ds
   let nrm := normaliseL p f ds
-  s!"repr={bit (representableL p f false ds)} # emit={"|".intercalate (evs.map showEv)} # norm={showForest nrm} # build={showForest (build p evs)} # norm2={showForest (normaliseL p f nrm)} # repr2={bit (representableL p f false nrm)} # dst={bit (dstableL p (ctxOf p [rootFrame]) false ds)}"
+  s!"repr={bit (representableL p f ds)} # emit={"|".intercalate (evs.map showEv)} # norm={showForest nrm} # build={showForest (build p evs)} # norm2={showForest (normaliseL p f nrm)} # repr2={bit (representableL p f nrm)} # dst={bit (dstableL p (ctxOf p [rootFrame]) false ds)}"
 
 def withTree (toks : List String) (k : Node → String) : String :=
   match parseNode (toks.length + 1) toks with
